@@ -116,7 +116,15 @@ class World:
 
         cbplan = spec.get('cb') or {}
 
+        crplan = spec.get('cbraise') or {}
+
         async def _yields(kind, i=None):
+            # a failing collaborator (spec['cbraise']): raises at once, every time it is called
+            cls = crplan.get(kind)
+            if isinstance(cls, dict):
+                cls = cls.get(str(i))
+            if cls:
+                raise progen.EXC[cls](i if i is not None else 0, 0, 0)
             # the collaborator suspends: `k` bare yields (spec['cb'])
             k = cbplan.get(kind, 0)
             if isinstance(k, dict):
